@@ -176,6 +176,19 @@ CHECKS = {
         note="Trusted: TLC, the process runner. Hash seeds are observed over N processes, not modelled; the model is small and mainly records which collections must be ordered.",
         technique="TLA+ model of iteration disciplines of the output-path collections (TLC) + multi-process / repeated in-process byte comparison of the real compiler's output",
     ),
+    "C03": dict(
+        design_ref="DESIGN.md 3.6 (Emit.tla), 4 (C03)",
+        text="Emit.tla models the closure-relevant part of the emitter (maybe_inline / reference_schema / all_components, path keys and "
+             "path parameters, synthesized operationIds) over every pair of different URI patterns of up to two segments x method sets x "
+             "up to three references of every kind; TLC checks RefsClosed, NoDanglingComponents, PathParamsMatch and, in a second "
+             "configuration, finds by itself the pairs whose synthesized operationIds collide. Every pair is compiled by the real "
+             "pipeline (the predicted collisions are exactly the real ones) and an independent validator checks every emitted document - "
+             "of the pairs, of every accepted member of the position/shape families, recursion shapes, corpus, determinism programs, and "
+             "of documents merged with a base - for $ref closure, path variable/parameter bijection, response keys, unique "
+             "operationIds; YAML round-trip equality is evaluated on the OpenAPI object model.",
+        note="Trusted: TLC, renderer, the Python validator. One genuine defect (synthesized operationIds collide) is a recorded known finding.",
+        technique="TLA+ model of reference inlining/registration, path keys and operationId synthesis (TLC over URI pairs) + independent structural validation of every emitted document",
+    ),
 }
 
 PENDING_REASON = "check not built yet (work in progress; see DESIGN.md section 8 for the build order)"
